@@ -1220,7 +1220,24 @@ impl Connection {
                 }
                 Timer::KeyDiscard => {
                     self.zero_rtt_crypto = None;
-                    self.prev_crypto = None;
+                    // The timer may have been armed for the 0-RTT keys alone. The previous 1-RTT
+                    // keys are only done with once the key update that replaced them has been
+                    // confirmed by the peer and three PTOs have passed since: until then the
+                    // peer's packets may still be protected with them.
+                    if let Some(end_packet) = self.prev_crypto.as_ref().map(|prev| prev.end_packet)
+                    {
+                        match end_packet {
+                            Some((_, confirmed)) => {
+                                let discard_at = confirmed + self.pto(SpaceId::Data) * 3;
+                                if discard_at <= now {
+                                    self.prev_crypto = None;
+                                } else {
+                                    self.timers.set(Timer::KeyDiscard, discard_at);
+                                }
+                            }
+                            None => {}
+                        }
+                    }
                 }
                 Timer::PathValidation => {
                     debug!("path validation failed");
